@@ -315,10 +315,9 @@ class Vmap(Generic[R], GenerativeFunction[R]):
         )
         argdiffs_slice = Diff.tree_diff(primal_slice, Diff.tree_tangent(argdiffs))
 
-        new_trace_slice, w, _, bwd_request = self.gen_fn.edit(
+        new_trace_slice, w, _, bwd_request = request.edit(
             key,
             trace_slice,
-            request,
             argdiffs_slice,
         )
 
